@@ -37,6 +37,16 @@ def make_op(o: int, nops: int, positions: List[int], curved: bool = True):
         op.set_patch("right", "outlet")
     op.set_patch("top", "walls")
     op.set_cell_zone(f"zone{o}")
+    if curved:
+        # a projected side, an arc on the top face and a spline on a side edge: stale faces/edges after
+        # clear/delete/backport would show in the file
+        op.project_side("front", "geo")
+        # edge data is user data: it stays where the user put it, whatever happens to the vertices later
+        base = [pos_coords(base_pos(o, k)) for k in range(1, 9)]
+        mid = [(base[4][i] + base[5][i]) / 2 for i in range(3)]
+        op.top_face.add_edge(0, cb.Arc([mid[0], mid[1] - 0.2, mid[2] + 0.05]))
+        a, b = base[2], base[6]
+        op.add_side_edge(2, cb.Spline([[a[i] + (b[i] - a[i]) * t + (0.1 if i == 1 else 0.0) for i in range(3)] for t in (0.3, 0.7)]))
     return op
 
 
@@ -72,13 +82,13 @@ def canon_file(f: Dict[str, Any]) -> Dict[str, Any]:
             a, b2 = b2, a
         edges.append([e["kind"], a, b2, data])
     edges.sort(key=repr)
-    faces = sorted([[sorted(vp(i) for i in q["quad"]), q["label"]] for q in f["faces"]], key=repr)
+    faces = sorted([[sorted((vp(i) for i in q["quad"]), key=repr), q["label"]] for q in f["faces"]], key=repr)
     boundary = {}
     for p in f["boundary"]:
         if not p["quads"]:
             continue
         boundary[p["name"]] = {"type": p["type"], "settings": p["settings"],
-                               "quads": sorted([sorted(vp(i) for i in q) for q in p["quads"]], key=repr)}
+                               "quads": sorted([sorted((vp(i) for i in q), key=repr) for q in p["quads"]], key=repr)}
     verts = sorted([[list(V[i]), sorted(v["proj"])] for i, v in enumerate(f["vertices"])], key=repr)
     return {"vertices": verts, "blocks": blocks, "edges": edges, "faces": faces, "boundary": boundary,
             "default": f["default"], "merge": f["merge"], "geometry": f["geometry"], "settings": f["settings"]}
@@ -100,10 +110,18 @@ def write_and_parse(mesh, tmpdir: str, tag: str) -> Dict[str, Any]:
         return {"error": "Unparsable:" + type(err).__name__, "msg": str(err)[:200]}
 
 
-def build_fresh(fresh: dict, nops: int):
+def new_mesh():
     import classy_blocks as cb
 
     mesh = cb.Mesh()
+    mesh.add_geometry({"geo": ["type searchablePlane", "planeType pointAndNormal", "point (0 0 0)", "normal (0 1 0)"]})
+    return mesh
+
+
+def build_fresh(fresh: dict, nops: int):
+    import classy_blocks as cb
+
+    mesh = new_mesh()
     for entry in fresh["ops"]:
         mesh.add(make_op(entry["op"], nops, entry["pos"]))
     apply_settings(mesh, fresh)
